@@ -144,8 +144,8 @@ PROPS['C06'] = dict(
     level_note='Trusted: rustc, Verus 0.2026.09.13 + Z3, assumed ArrayDeque/heapless contracts (cross-checked bounded by Kani on the real crates), Kani 0.68 + CBMC 6.11. Not decided: that every non-one-shot action calls handle_press(Other); the deferred release path through dequeue; stacking through Layout.',
     technique='function contracts discharged by Verus on mechanically extracted text (unbounded) + bounded Kani contract harnesses on the real crate (cross-check of the assumed container contracts, counterexample replay)',
     design_ref='DESIGN.md section 4, C06; 9.1b',
-    explanation='OneShotState::{handle_press, handle_release, tick_osh}: postconditions taken from the property statement (press variants end within the rapid-event delay; release variants end on the release of the first following key; pcancel on re-press of an active one-shot key; a held one-shot key acts as the plain key (its deferred release is forgotten on re-press); expiry exactly when the last millisecond elapses or an end was requested, and it clears everything so nothing later is affected; the 17th deferred release evicts the oldest instead of being lost). All three are proved UNBOUNDED by Verus (unit oneshot) against the assumed ArrayDeque(Wrapping)/heapless contract; the closure passed to retain() is annotated mechanically (R12: its ensures clause is generated from its own body text, so a changed predicate changes the spec it is checked with). do_action_one_shot (unit waiting; FRAGMENT: the OneShot arm of Layout::do_action): the inner action runs exactly once, flagged as a one-shot activation; then the key joins the active table (keys tapped in a row combine), the timeout restarts with this key\'s value, its end variant governs; with 16 already active the oldest is released through Layout::event, not dropped. handle_press is an assumed stub there (proved in unit oneshot).',
-    verus=[dict(unit='oneshot'), dict(unit='waiting', only=['do_action_one_shot']), dict(unit='layers', only=['do_action_key_code_head', 'do_action_layer', 'do_action_default_layer'])],
+    explanation='OneShotState::{handle_press, handle_release, tick_osh}: postconditions taken from the property statement (press variants end within the rapid-event delay; release variants end on the release of the first following key; pcancel on re-press of an active one-shot key; a held one-shot key acts as the plain key (its deferred release is forgotten on re-press); expiry exactly when the last millisecond elapses or an end was requested, and it clears everything so nothing later is affected; the 17th deferred release evicts the oldest instead of being lost). All three are proved UNBOUNDED by Verus (unit oneshot) against the assumed ArrayDeque(Wrapping)/heapless contract; the closure passed to retain() is annotated mechanically (R12: its ensures clause is generated from its own body text, so a changed predicate changes the spec it is checked with). do_action_one_shot (unit waiting; FRAGMENT: the OneShot arm of Layout::do_action): the inner action runs exactly once, flagged as a one-shot activation; then the key joins the active table (keys tapped in a row combine), the timeout restarts with this key\'s value, its end variant governs; with 16 already active the oldest is released through Layout::event, not dropped. handle_press is an assumed stub there (proved in unit oneshot). Call sites in Layout::do_action under contract (unit layers, FRAGMENTS of the arms): the plain-key, layer, default-layer, NoOp (do_action_noop: told about an ordinary press unless it runs inside a one-shot or at the coordinate (0,0) that chords v2 uses for its synthetic tap-hold trigger) and Custom (do_action_custom: told; recorded at the pressed coordinate; reported exactly when recorded) arms each notify the one-shot logic with Other(coord) exactly once when not run as the inner action of a one-shot, and never otherwise.',
+    verus=[dict(unit='oneshot'), dict(unit='waiting', only=['do_action_one_shot']), dict(unit='layers', only=['do_action_key_code_head', 'do_action_layer', 'do_action_default_layer', 'do_action_noop', 'do_action_custom'])],
     kani=[
         H('keyberon', 'layout', 'c06_b_press_other', kind='bounded', bound='each table <= 3 coordinates', functions=[L + 'OneShotState::handle_press']),
         H('keyberon', 'layout', 'c06_b_press_oneshot_key', kind='bounded', bound='each table <= 3 coordinates'),
